@@ -55,10 +55,12 @@
      Drop / Dup           network faults (budget MaxFaults).
      Crash / Restart / Recover(n,p) / RecoverFail
                           DB.Close (or process death) / kv.Open on the same engine /
-                          runSingleNodeRecovery for one peer: high-water = max version of
-                          ANY local digest, the peer streams every digest with version
-                          >= high-water, all of them are written in one transaction
-                          WITHOUT the supersedes test.
+                          runSingleNodeRecovery for one peer (peers in turn): high-water =
+                          max version of ANY local digest when Open started, the peer streams every digest
+                          with version >= high-water, those that supersede the stored
+                          operation are written in one transaction (as repaired; as-was:
+                          all of them, peers concurrently - deviation
+                          "RecoveryUncheckedApply").
      Subscribe(n,s)       DB.OnChange ("p") / NewObservable(IgnoreHostLeaseholder)
                           .OnChange ("f").
 
@@ -68,12 +70,13 @@
    design run (which must still produce the stale-feedback counterexample with the
    "StaleFeedback" window un-masked) and for explaining traces of an unrepaired tree.
 
-   The code as written violates C06 in four windows (five as-was).  Each is a NAMED DEVIATION; the
+   The code as written violates C06 in three windows (five as-was: see Deviations).  Each is a NAMED DEVIATION; the
    set `Masked` lists the windows in which the environment does NOT step (2.5 of
    DESIGN.md): with all of them masked every invariant holds (the exhaustive run);
    un-masking one yields a counterexample, which the check replays as a directed
    script on the real code (tools/props/_aspenkv.py WINDOWS).
-     "RecoveryUnchecked"  Recover applies a streamed operation that does not supersede
+     "RecoveryUnchecked"  (only with the "RecoveryUncheckedApply" deviation; repaired
+                          since) Recover applies a streamed operation that does not supersede
                           the local digest (equal versions/lower leaseholder from one
                           peer; any older operation when two peers are recovered in turn).
      "VolatileStore"      Crash while the store holds infected operations: they are
@@ -112,7 +115,7 @@ CONSTANTS Node,         \* node keys (positive integers)
 
 Windows == {"RecoveryUnchecked", "VolatileStore", "StaleFeedback", "MultiLease", "PrematureRemoval"}
 ASSUME Masked \subseteq Windows
-ASSUME Deviations \subseteq {"StaleFeedbackOverwrite"}
+ASSUME Deviations \subseteq {"StaleFeedbackOverwrite", "RecoveryUncheckedApply"}
 
 VARIABLES eng, ctr, store, reps, status, pend, hwsnap, net, faults, restarts,
           pendw,                       \* an open aspen tx: lease allocated, not yet committed
@@ -305,16 +308,22 @@ Restart(n) ==
     /\ status' = [status EXCEPT ![n] = IF Node = {n} THEN "up" ELSE "rec"]
     /\ UNCHANGED <<pendw, eng, ctr, store, reps, net, faults, restarts, written, got, act, seen, chg, lag, bad>>
 
-(* runRecovery starts one goroutine per peer; each loads the high-water mark first and
-   commits its own transaction last, so a peer's recovery may run with the mark loaded
-   at start-up (hwsnap) or with the one that already reflects another peer's commit. *)
+(* recovery.go as repaired: runRecovery loads the high-water mark ONCE (hwsnap, what the node
+   held when it started) and recovers the peers ONE AFTER THE OTHER (arbitrary order:
+   cfg.Cluster.Nodes() is a map); every peer is asked for everything from that mark on, and
+   each runSingleNodeRecovery applies, in one transaction, only the streamed operations
+   that supersede the stored one (the gossip ingress rule).
+   Deviation "RecoveryUncheckedApply" (as-was): one goroutine per peer, the mark loaded at
+   start-up (hwsnap) or after another peer's commit, every streamed operation written
+   without the supersedes test; the "RecoveryUnchecked" window only exists with it.     *)
 Streamed(p, hw) == {o \in EngOps(p) : o.ver >= hw}
+AsWasRecovery == "RecoveryUncheckedApply" \in Deviations
 Recover(n, p) ==
     /\ status[n] = "rec" /\ p \in pend[n] /\ status[p] # "down"
-    /\ \E hw \in {hwsnap[n], HighWater(n)} : LET S == Streamed(p, hw) IN
-       /\ "RecoveryUnchecked" \in Masked =>
+    /\ \E hw \in (IF AsWasRecovery THEN {hwsnap[n], HighWater(n)} ELSE {hwsnap[n]}) : LET S == Streamed(p, hw) IN
+       /\ (AsWasRecovery /\ "RecoveryUnchecked" \in Masked) =>
              \A o \in S : Supersedes(o, eng[n][o.k]) \/ SameId(o, eng[n][o.k])
-       /\ eng' = [eng EXCEPT ![n] = ApplySet(@, S)]         \* no supersedes test
+       /\ eng' = [eng EXCEPT ![n] = ApplySet(@, IF AsWasRecovery THEN S ELSE AccSet(eng[n], S))]
        /\ got' = [got EXCEPT ![n] = @ \cup S]
     /\ pend' = [pend EXCEPT ![n] = @ \ {p}]
     /\ status' = [status EXCEPT ![n] = IF pend[n] = {p} THEN "up" ELSE "rec"]
